@@ -21,6 +21,8 @@ func checkC19(c *Ctx) {
 	c.Rule("C19-R3", "guarded wScreen state (size, cells, flags, fallback map, the JS grid) is accessed only with the mutex held; no blocking event post while holding it")
 	c.Rule("C19-R4", "mouse handlers are installed only under the matching MouseFlags test, button-less moves are dropped unless motion is enabled")
 	c.Rule("C19-R5", "the JS drawCell call is dominated by the Dirty test and paired with SetDirty(false); palette table for the 16 basic colours equals the xterm values")
+	c.Rule("C19-R8", "Fini closes the quit channel exactly once and in every state (sync.Once around an unconditional close), so Fini after Suspend releases pollers and a second Fini is harmless")
+	c.Expect("C19-R8", 1)
 	c.Rule("C19-R7", "the key callback looks a key up under its plain DOM name whatever the modifiers are (the Ctrl-letter names are an additional, earlier lookup)")
 	c.Expect("C19-R7", 1)
 	c.Rule("C19-R6", "the remembered mouse and paste modes are stored only by the togglers, never by anything reachable from Suspend/Resume/Fini; Resume re-applies both from the remembered fields")
@@ -131,6 +133,35 @@ func checkC19(c *Ctx) {
 	}
 	checkC19Mouse(c, p)
 	checkC19Keys(c, p)
+	if fini := p.Fn("tcell:(*wScreen).Fini"); fini != nil {
+		var target *ssa.Function
+		ncalls := 0
+		eachInstr(fini, func(in ssa.Instruction) {
+			if cc := callCommon(in); cc != nil {
+				ncalls++
+				if calleeName(cc) == "(*sync.Once).Do" && len(cc.Args) == 2 {
+					target = boundTarget(cc.Args[1])
+				}
+			}
+		})
+		ok := target != nil && ncalls == 1
+		detail := fmt.Sprintf("Fini makes %d call(s); through sync.Once: %v", ncalls, target != nil)
+		if ok {
+			closes := false
+			for _, in := range target.Blocks[0].Instrs {
+				if cl, isCall := in.(*ssa.Call); isCall {
+					if b, isB := cl.Call.Value.(*ssa.Builtin); isB && b.Name() == "close" {
+						closes = true
+					}
+				}
+			}
+			ok = closes
+			detail += fmt.Sprintf("; the once-function closes the quit channel in its entry block: %v", closes)
+		}
+		c.Check(ok, "C19-R8", "(*wScreen).Fini:once-unconditional", p.pos(fini.Pos()), detail)
+	} else {
+		c.Undecided("C19-R8", "(*wScreen).Fini", "-", "not found")
+	}
 	checkRememberedModes(c, p, "C19-R6", "wScreen", []string{"mouseFlags", "pasteEnabled"}, []string{"Suspend", "Resume", "Fini"})
 	if rs := p.Fn("tcell:(*wScreen).Resume"); rs != nil {
 		for _, ra := range [][2]string{{"enableMouse", "mouseFlags"}, {"enablePasting", "pasteEnabled"}} {
